@@ -364,3 +364,27 @@ PROPS["C20"] = {
         {"name": "TestProp_C20_Race", "build": "race", "race_is_violation": True, "quick": {"shards": 2, "checks": 3, "timeout": 900}, "thorough": {"shards": 4, "checks": 30, "timeout": 3000}},
     ],
 }
+
+# ---- additions made while building (rounds 2 and 3 of the seeded changes); appended to the rules above ----
+_EXTRA = {
+    "C02": " Added: for every MAC key disclosed on the wire a forgery for exactly the key pair it belongs to (fresh counter) is presented to the party it would authenticate towards; 'holdback' keeps one side's message in flight while keys rotate and are disclosed around it; injected cleartext also carries whitespace tags and receivers take up tags.",
+    "C03": " Added: encryption is due from the announcement of a session until End() or the peer's disconnect according to the harness's own lifecycle model, not the library's IsEncrypted(); C03faults enumerates a failing randomness read at positions 0..13 of a key exchange x party x starter x pre-state (none, session, peer-ended) x version policy.",
+    "C05": " Added: randomness faults (one read fails) in the middle of histories, followed by replays.",
+    "C06": " Added: rejected-input kind 'length prefix' (a DATA/MPI length of an AKE message altered); byte-exact comparison of the wire output whenever both worlds have identical randomness histories; C06firstuse enumerates damaged copies that arrive before the genuine message and are the first use of their key pair, followed by enough traffic to retire that pair.",
+    "C09": " Added: randomness faults: a rotation that did not happen must not lead to disclosure.",
+    "C10": " Added: every 20 bytes of the old-MAC-keys field must be a MAC key of a key pair of the discloser; the reference may open the conversation with the specification's whitespace tag (five forms, version 1 group first where present).",
+    "C11": " Added: C11short - each of 26 values of the reference prover's messages forced to have a zero top byte (one byte shorter as MPI) by re-drawing its randomness; equal secrets must succeed, different ones fail.",
+    "C14": " Added: a piece with the right index in the other version's header format and a payload of its own arrives before the genuine last piece.",
+    "C16": " Added: form 7 - a D-H Commit of a forbidden version (genuine, or relabelled and correctly addressed) after 0..5 handshake messages and in the established session: no reply, no state change, the handshake completes and text flows.",
+    "C18": " Added: End() closes the books for resending; C18faults (failing read at every position of a key exchange) and C18ended (the peer's error message at five points around peer-ended/End()/new session) are enumerated.",
+    "C19": " Added: runs of forgeries walking over the acceptable key-id pairs, unauthenticated fragment floods with reserved/foreign/unparsable tags, error-request plus re-key cycles with a silent user, listen-only parties whose only output is the heartbeat.",
+    "C20": " Added: the application's memory is judged: pass-phrase buffers shared by all pairs must be unchanged, and every message or plaintext handed out by the library must still read as it did when returned (checked after each solo run and after the concurrent rounds); every pair provokes a generated error message while encrypted.",
+    "C08": " Added: C08faults - one party's randomness fails from read k on (k=0..14, persistent or one-shot, error or short read) during a handshake; secrets of an exchange the party has left must be gone, decided by presenting the refused final message once more on a healed source.",
+    "C07": " Added: for Send under required encryption the trigger is repeated (1x quick, 2x thorough) at every point of every schedule.",
+    "C12": "",
+    "C04": " Added: 'sk' arms a D-H key whose public value has a zero top byte; session configurations arm 0-3 such keys per party in a quarter of the cases.",
+}
+for _k, _v in _EXTRA.items():
+    if _v:
+        PROPS[_k]["rule"] = "".join(PROPS[_k]["rule"]) if isinstance(PROPS[_k]["rule"], tuple) else PROPS[_k]["rule"]
+        PROPS[_k]["rule"] += _v
